@@ -149,3 +149,27 @@ Proof.
 Qed.
 Theorem impl_err_unchanged i s s' : wf s -> err_state (impl i s) = Some s' -> s' = s.
 Proof. intros W. rewrite refine by exact W. apply spec_err_unchanged. Qed.
+
+(* ---- C03-style facts on the table ---- *)
+Theorem wf_preserved i s s' : wf s -> spec i s = Ok s' -> wf s'.
+Proof.
+  destruct s as [[ci I] [cb B] o]. unfold wf, wfs, asize. cbn [ints bools cap items]. intros [Hi Hb].
+  destruct i; unfold spec, room, asize, set_ints, set_bools; cbn [ints bools out cap items];
+  crush; intros H; inversion H; subst; cbn [ints bools cap items length] in *; crush; split; lia.
+Qed.
+
+Definition dest_full (i : instr) (s : state) : Prop :=
+  match i with
+  | LessThan | IsZero | FromInt => cap (bools s) <= asize (bools s)
+  | FromBoolean | DupInt => cap (ints s) <= asize (ints s)
+  | _ => False
+  end.
+Theorem fatal_only_overflow i s s' e : spec i s = Fatal s' e -> e = Overflow /\ dest_full i s.
+Proof.
+  destruct s as [[ci I] [cb B] o].
+  destruct i; unfold spec, room, asize, dest_full; cbn [ints bools out cap items];
+  crush; intros H; inversion H; subst; split; try reflexivity; unfold asize; cbn [ints bools cap items length] in *; lia.
+Qed.
+Theorem underflow_never_fatal i s s' r p : spec i s <> Fatal s' (Underflow r p).
+Proof. intros H. apply fatal_only_overflow in H as [H _]. discriminate. Qed.
+Print Assumptions fatal_only_overflow.
